@@ -690,14 +690,19 @@ def numeric(rep, rng, thorough, wd):
     # valence-band top, INSIDE that near-degenerate pair at some k-points of the run (class lowest_level_inside_group)
     weak = dict(done=0, straddling_kpoints=0, worst_in_gap=0.0, worst_above=0.0)
     for ilay in ((0, 1) if thorough else (0,)):
-        m = km.haldane_bilayer(rng.randrange(1 << 30), layer[ilay], layer[ilay], coupling=0.015625)
         ks = [np.array([i / N, j / N, 0.0]) for i in range(N) for j in range(N)]
-        Es = np.array([np.linalg.eigvalsh(m.Hk(k)) for k in ks])
-        itop = int(np.argmax(Es[:, 1]))
-        split = float(Es[itop, 1] - Es[itop, 0])
-        vtop, cbot, emax = float(Es[:, 1].max()), float(Es[:, 2].min()), float(Es.max())
-        if not 1e-3 < split < 0.05 or cbot - vtop < 0.5:
-            raise MachineryError(f"weak bilayer unsuitable: splitting at the valence-band top {split}, gap {cbot - vtop}")
+        for _draw in range(64):   # SuitableWeakBilayer: a named input-class predicate, evaluated on the model Hamiltonian only
+            m = km.haldane_bilayer(rng.randrange(1 << 30), layer[ilay], layer[ilay], coupling=0.015625)
+            Es = np.array([np.linalg.eigvalsh(m.Hk(k)) for k in ks])
+            itop = int(np.argmax(Es[:, 1]))
+            split = float(Es[itop, 1] - Es[itop, 0])
+            vtop, cbot, emax = float(Es[:, 1].max()), float(Es[:, 2].min()), float(Es.max())
+            ef0_ = vtop - split / 2
+            nstr_ = int(np.sum((Es[:, 0] < ef0_) & (Es[:, 1] >= ef0_) & (Es[:, 1] - Es[:, 0] <= 0.05)))
+            if 1e-3 < split < 0.05 and cbot - vtop >= 0.5 and nstr_ > 0:
+                break
+        else:
+            raise MachineryError(f"weak bilayer: none of 64 seeded couplings is suitable (last: splitting {split}, gap {cbot - vtop})")
         ef0 = vtop - split / 2
         step = 0.5 * (vtop + cbot) - ef0
         nlev = int(np.ceil((emax - ef0) / step)) + 3
